@@ -4,7 +4,8 @@ import re
 from ..core import Anchor
 from ..model import core_row, grammar_tables, op_values
 from ..tree import path_of, show, show_stmt, walk
-from . import builder, codec, loaderx
+from . import builder, codec
+from . import loadeval as loaderx
 
 EXPLANATION = (
     "Every instruction-emitting Builder method (1121 of 1175) is read symbolically: opcode, result type/id presence, the "
